@@ -242,3 +242,23 @@ def mutate_leak_tmp(tr):
             e["fs"]["t0"] = "closed"
             return tr
     return None
+
+
+def replay_file(ctx, path, invariants, what):
+    """`./check <ID> --replay <file>`: re-execute the recorded input against the current tree and
+    re-validate it; prints the verdict for that single case."""
+    from . import runsim
+
+    rec = json.load(open(path))
+    if "kind" not in rec:
+        print(f"replay file {path} records a model-level counterexample:\n{rec.get('counterexample', '')[:3000]}")
+        return 1
+    job = (rec["kind"], rec["payload"])
+    traces = replay_all(ctx, [job])
+    accepted, norm = validate(ctx, [job], traces, rec.get("mechanism", MECH), invariants, runsim.normalise_for_tlc, what)
+    if accepted:
+        print(f"replay: the recorded input is now accepted (property {ctx.pid} holds on it)")
+        return 0
+    for v in ctx.violations:
+        print(f"VIOLATION property={ctx.pid} replay={v['replay']}\n  what: {v['what']}")
+    return 1
